@@ -291,6 +291,18 @@ func c20Run(c *core.Ctx, idx int) {
 		mb := c20MakeBody(c)
 		body := mb.body
 		useGzip := c.Rng.Intn(3) == 0
+		if idx == 1 && k < 2 {
+			// One case per run has documents of more than 16 MiB (as large as a
+			// proxy may see), plain and compressed; what follows the inspected
+			// prefix is preserved byte for byte like everything else.
+			n := []int{16<<20 + 1, 20 << 20, 32<<20 + 5}[c.Rng.Intn(3)]
+			unit := []byte("0123456789abcdef<p>text</p>\n")
+			pad := bytes.Repeat(unit, n/len(unit)+1)[:n]
+			body = append(append([]byte(nil), body...), pad...)
+			mb.desc += " + " + strconv.Itoa(n) + " bytes of text"
+			useGzip = k == 0
+			c.Event("documents_larger_than_16_MiB", 1)
+		}
 		hdr := http.Header{}
 		// The declared charset is whatever the server says; the bytes are
 		// preserved whether or not they are well-formed in it.
@@ -491,6 +503,7 @@ func init() {
 		Level: "exploration",
 		Rule: "per case 4 bodies: ASCII, all 256 byte values or mostly high bytes, plain or gzip-encoded, with 0..4 markers (</head, <link, <style, <script in random letter case) whose first occurrence is placed at 0, early, at 16383/16384, straddling the window, beyond it, or where high-byte padding moves the transcoded offset over the window, with near-markers before it (truncated markers and markers with one byte changed in its case bit, high bit or value, e.g. 0x1c for '<'); " +
 			"pages on ASCII, punycode and capitalised hosts, with a port, on an address; " +
+			"case 1 of every run has two documents of more than 16 MiB (one of them gzip-encoded); " +
 			"oracle on bytes: output == body[:i]+tag+body[i:] when the marker's transcoded offset is inside the window, output == body when no marker starts before byte 16384, either exact form in between; Content-Length == len(output), Content-Encoding removed, tag has the content-script form (hook VerifFilterHTMLCtx: pages fetched with GET, POST or PUT under a live context, one that is already done, or one that ends while the body is read; one server for the four sessions of a case (in half of the cases with a filtering engine over a filter file: empty, generic rules, rules for the page's host or for another one), pages of the same and of other hosts whose verdicts switch different cosmetic options off; the response is attached with Session.SetResponse and declares no charset, utf-8, windows-1251, euc-jp, utf-16, iso-8859-1 or an unknown one; the original body is delivered in pieces of 1 / 13 / 512 / 1460 / 4096 / 16384 bytes or at once, with a known or unknown declared length; the four responses of a case are filtered first and their bodies are read afterwards in another order); non-trivial = body with a marker; distinct by body head, marker offset and encoding",
 		Assumptions: []string{
 			"the 16 KiB window is measured by the code on the Latin-1 to UTF-8 transcoded text; between the byte and the transcoded bound either outcome is accepted",
